@@ -1,4 +1,5 @@
 import SimVerif.Model.Wire
+import SimVerif.Gen.Consts
 import SimVerif.Model.Voting
 /-
 Executable matrix-level model of `SortVoting::winners` (src/trackers/sort/voting.rs).
@@ -13,7 +14,8 @@ assignments and their objective, so whatever optimal solution the solver picks c
 namespace SimVerif.AssignX
 open SimVerif.Wire SimVerif.Voting
 
-def MULT : Rat := 1000000
+/-- `F32_U64_MULT`, regenerated from src/trackers/sort/voting.rs -/
+def MULT : Rat := Gen.F32_U64_MULT
 
 /-- `(x * F32_U64_MULT) as i64` for a finite f32 `x` -/
 def quantise (x : Rat) : Int := truncInt (roundF32 (x * MULT))
